@@ -6,6 +6,7 @@ import OmplModel.Proofs.CopyCommon
 import OmplModel.Proofs.CopyWcFix
 import OmplModel.Proofs.CopySig
 import OmplModel.Proofs.CopyWrapNames
+import OmplModel.Proofs.CopyScoped
 /-!
 C09 — copies and persisted data reproduce states and planner graphs exactly.
 
@@ -130,6 +131,19 @@ theorem signature_of_nested (nm : Nat) (cs : List Sp) (s : Sp) :
 
 example : signature (.compound 0 [.real 1 2, .compound 2 [.so2 3, .discrete 4], .wrapper 5 (.so3 6)])
     = [12, 0, 7, 1, 2, 0, 2, 2, 1, 7, 1, 0, 3] := by decide
+
+/-- `ScopedState::reals()` (the walk over `getValueAddressAtIndex` until null) returns every double of the state once and in
+order, and `ScopedState::operator=(reals)` writes the first `reals.size()` of them in that order (extra values are ignored,
+missing ones leave the rest untouched) — for every space tree, no hypothesis -/
+theorem scopedState_reals (sp : Sp) (st : St) (rs : List Nat) :
+    scopedReals sp st = (realAddrs sp).map (fun p => readBits st (some p)) ∧
+    scopedAssign sp st 0 rs = writeP st (realAddrs sp) rs := by
+  refine ⟨scopedReals_eq sp st, ?_⟩
+  have := scopedAssign_eq sp rs st 0
+  simpa using this
+
+example : scopedAssign (.compound 0 [.discrete 1, .so3 2, .real 3 1]) (.comp [.leaf [.i32 4], .leaf [.f64 0, .f64 0, .f64 0, .f64 1], .leaf [.f64 9]]) 0 [5, 6]
+    = .comp [.leaf [.i32 4], .leaf [.f64 5, .f64 6, .f64 0, .f64 1], .leaf [.f64 9]] := by rfl
 
 /-! ## partial copies -/
 
